@@ -102,6 +102,11 @@ def gen_dst(rng, src, opts):
         parent = os.path.dirname(rel)
         if parent and dst.get(parent, {}).get("k") != "d": continue          # keeps the tree well-formed: no orphan entries
         if n["k"] == "d":
+            if k >= 92 and opts.get("symlinks"):
+                # a SYMLINK where the source has a directory (what an earlier run leaves when the source entry was a link to
+                # a directory then): it is replaced, never followed — nothing below it exists in the destination (fix 862af11)
+                dst[rel] = L(rng.pick(["@OUT@", "@OUT@/sub", "nowhere", "@SRC@/" + rel, "@OUT@/sentinel.txt"]))
+                continue
             if k < 60: dst[rel] = D()
             elif opts.get("conflicts") and (k < 66 or (k < 80 and not any(r.startswith(rel + "/") for r in src))):
                 dst[rel] = F(b"a file where the source has a directory")     # type conflict (more often for empty source directories)
@@ -440,9 +445,16 @@ def edit_source(rng, src_root, out_root):
         for name in dn + fn: entries.append(os.path.join(dp, name))
     links = [p for p in entries if os.path.islink(p)]
     files = [p for p in entries if os.path.isfile(p) and not os.path.islink(p)]
-    k = rng.below(5)
+    k = rng.below(6)
     t = BASE_T * 10**9 + rng.range(2000, 3000) * 10**9
-    if k == 0 and links:
+    if k == 5 and links:
+        # a link becomes a real DIRECTORY with content; one child has the name, size and mtime of a file in the outside
+        # area (through a stale destination link it would be judged up to date), the others would be created through it
+        p = rng.pick(links); os.unlink(p); os.makedirs(os.path.join(p, "inner"))
+        for nm, body, tt in (("sentinel.txt", b"SENTINEL", BASE_T * 10**9), ("fresh.txt", b"fresh", t), ("inner/deep.bin", b"deep" * 50, t)):
+            with open(os.path.join(p, nm), "wb") as f: f.write(body)
+            os.utime(os.path.join(p, nm), ns=(tt, tt))
+    elif k == 0 and links:
         p = rng.pick(links); os.unlink(p); os.symlink(rng.pick(["nowhere2", os.path.join(out_root, "sentinel.txt"), os.path.basename(rng.pick(files)) if files else "x"]), p)
     elif k == 1 and links:
         p = rng.pick(links); os.unlink(p)
